@@ -99,7 +99,7 @@ def direct_batch(ctx, st, cases, tag, two_step=False):
                 _direct_violation(ctx, st, s2, a2, k2, i2, sp2, c2, "Spec fails on the implementation (found near a model disagreement)")
             else:
                 _direct_violation(ctx, st, sig, args, kw, impl, f"model={model}", corner,
-                                  "corr:C07:direct (callable_method vs SMV.Bind.invoke) no longer checks; theorem C07_receive_partial is about the model", no_input=True)
+                                  "corr:C07:direct (callable_method vs SMV.Bind.invoke) no longer checks; theorems C07_receive / C07_receive_exact are about the model", no_input=True)
         else:
             st.validated += 1
         if len(ctx.violations) >= 3:
@@ -143,6 +143,39 @@ def _direct_violation(ctx, st, sig, args, kw, impl, expected, corner, why, no_in
     rp = ctx.write_replay(f"direct-{h}.replay.txt", "\n".join(body) + "\n")
     if all(v[0] != rp for v in ctx.violations):
         ctx.violation(rp, why, no_input=no_input)
+
+
+# ----------------------------------------------------------------------------- anchored-line coverage
+
+def line_coverage(cases):
+    """lines of `SignatureAdapter.bind_expected` executed by `cases` / its executable lines"""
+    import dis
+    import sys
+    try:
+        from statemachine.signature import SignatureAdapter
+        code = SignatureAdapter.bind_expected.__code__
+    except Exception:  # noqa: BLE001
+        return None
+    want = {l for _, l in dis.findlinestarts(code) if l is not None and l > code.co_firstlineno}
+    seen = set()
+
+    def local(frame, event, arg):
+        if event == "line":
+            seen.add(frame.f_lineno)
+        return local
+
+    def tracer(frame, event, arg):
+        return local if frame.f_code is code else None
+
+    sys.settrace(tracer)
+    try:
+        for sig, args, kw in cases:
+            I.impl_direct(G.make_function(sig), args, kw)
+    finally:
+        sys.settrace(None)
+    missing = sorted(want - seen)
+    return dict(function="SignatureAdapter.bind_expected", executable_lines=len(want), executed=len(want & seen),
+                not_executed=missing)
 
 
 # ----------------------------------------------------------------------------- externals
@@ -279,64 +312,108 @@ def locality_direct(ctx, st, rng_tag, n):
 
 # ----------------------------------------------------------------------------- machines
 
+def _mach_judge(scn, r, mod):
+    """-> (expected frames, run, model frames, Spec failures, model/implementation differences)"""
+    tokens = r["tokens"]
+    exp, run = MA.expected_frames(scn, tokens)
+    mfr, _ = MA.model_frames(scn, mod)
+    fails, corr = [], []
+    if "crash" in r:
+        fails.append(f"building/driving the machine raised {r['crash']}")
+    te = scn.get("expect_typeerror")
+    if te is None:
+        if any(r["errors"]):
+            fails.append(f"sm.send raised {[e for e in r['errors'] if e][0]} though every callback can be bound")
+        for cid in sorted(set(exp) | set(r["frames"])):
+            got, want = r["frames"].get(cid, []), exp.get(cid, [])
+            if got != want:
+                fails.append(f"callback {cid} ({scn['cbs'][cid]['form']}) received {got}, Spec says {want}")
+            if mfr.get(cid, []) != got:
+                corr.append(f"callback {cid}: implementation {got}, model {mfr.get(cid, [])}")
+    else:
+        if "TypeError" not in r["errors"]:
+            fails.append(f"callback {te} lacks a required argument but sm.send raised nothing")
+        for cid, got in r["frames"].items():
+            want = exp.get(cid, [])
+            if got != want[:len(got)]:
+                fails.append(f"callback {cid} received {got}, Spec says a prefix of {want}")
+            if mfr.get(cid, [])[:len(got)] != got:
+                corr.append(f"callback {cid}: implementation {got}, model {mfr.get(cid, [])}")
+    # trigger_data.kwargs never holds a reserved name (observed wherever a callback got event_data)
+    for ev, ks in r["tk"]:
+        leaked = [k for k in ks if k in G.RESERVED]
+        if leaked:
+            fails.append(f"event_data.trigger_data.kwargs of event {ev} contains reserved names {leaked}")
+    return exp, run, mfr, fails, corr
+
+
+def _mach_run(scn):
+    try:
+        r = MA.run_impl(scn)
+    except Exception as e:  # noqa: BLE001
+        r = dict(crash=f"{type(e).__name__}: {e}", tokens=MA.Tokens(), frames={}, errors=[], tk=[], src=MA.render(scn))
+    return r
+
+
+def _mach_single(scn):
+    r = _mach_run(scn)
+    mod = run_driver(MA.model_lines(scn, r["tokens"]), **DRV)
+    return (r,) + _mach_judge(scn, r, mod)
+
+
+def _mach_shrink(scn, want_fails):
+    """greedy: drop sends from the end, then callbacks, while the same kind of failure persists"""
+    def bad(c):
+        try:
+            MA.check_consistent(c)
+            _, _, _, _, fails, corr = _mach_single(c)
+        except Exception:  # noqa: BLE001
+            return False
+        return bool(fails) if want_fails else (bool(corr) and not fails)
+    cur = scn
+    t0 = time.time()
+    changed = True
+    while changed and time.time() - t0 < 10:
+        changed = False
+        for k in range(len(cur["sends"]) - 1, 0, -1):
+            c = json.loads(json.dumps(cur))
+            del c["sends"][k]
+            if bad(c):
+                cur, changed = c, True
+        for k in range(len(cur["cbs"]) - 1, -1, -1):
+            c = MA.drop_cb(cur, k)
+            if c is not None and bad(c):
+                cur, changed = c, True
+    return cur
+
+
 def machine_batch(ctx, st, scns):
-    toks = {}
     lines = []
     impls = {}
     for scn in scns:
-        try:
-            r = MA.run_impl(scn)
-        except Exception as e:  # noqa: BLE001
-            r = dict(crash=f"{type(e).__name__}: {e}", tokens=MA.Tokens(), frames={}, errors=[], tk=[], src=MA.render(scn))
+        r = _mach_run(scn)
         impls[scn["name"]] = r
-        toks[scn["name"]] = r["tokens"]
         lines += MA.model_lines(scn, r["tokens"])
     mod = run_driver(lines, **DRV)
     for scn in scns:
         r = impls[scn["name"]]
-        tokens = r["tokens"]
-        exp, run = MA.expected_frames(scn, tokens)
-        mfr, mtk = MA.model_frames(scn, mod)
+        exp, run, mfr, fails, corr = _mach_judge(scn, r, mod)
         st.evaluations += 1
         _mach_distribution(st, scn, run)
         key = scn_hash(MA.scn_json({**scn, "name": ""}))
         if any(nontrivial_call(MA.effective_sig(scn["cbs"][cid]), args, off)
                for _, _, args, _, rows in run for cid, _, off, _, _ in rows):
             st.nontrivial.add(key)
-        fails, corr = [], []
-        if "crash" in r:
-            fails.append(f"building/driving the machine raised {r['crash']}")
-        te = scn.get("expect_typeerror")
-        if te is None:
-            if any(r["errors"]):
-                fails.append(f"sm.send raised {[e for e in r['errors'] if e][0]} though every callback can be bound")
-            for cid in sorted(set(exp) | set(r["frames"])):
-                got, want = r["frames"].get(cid, []), exp.get(cid, [])
-                if got != want:
-                    fails.append(f"callback {cid} ({scn['cbs'][cid]['form']}) received {got}, Spec says {want}")
-                if mfr.get(cid, []) != got:
-                    corr.append(f"callback {cid}: implementation {got}, model {mfr.get(cid, [])}")
-        else:
-            if "TypeError" not in r["errors"]:
-                fails.append(f"callback {te} lacks a required argument but sm.send raised nothing")
-            for cid, got in r["frames"].items():
-                want = exp.get(cid, [])
-                if got != want[:len(got)]:
-                    fails.append(f"callback {cid} received {got}, Spec says a prefix of {want}")
-                if mfr.get(cid, [])[:len(got)] != got:
-                    corr.append(f"callback {cid}: implementation {got}, model {mfr.get(cid, [])}")
-        # trigger_data.kwargs never holds a reserved name (observed wherever a callback got event_data)
-        for ev, ks in r["tk"]:
-            leaked = [k for k in ks if k in G.RESERVED]
-            if leaked:
-                fails.append(f"event_data.trigger_data.kwargs of event {ev} contains reserved names {leaked}")
         if len(st.samples) < 6 and not fails and r["frames"] and scn.get("fwd"):
             st.samples.append(dict(machine=r["src"].split("\n")[:30], sends=scn["sends"], fwd=scn["fwd"],
                                    received={k: v for k, v in list(r["frames"].items())[:4]}))
-        if fails:
-            _mach_violation(ctx, st, scn, r, exp, mfr, fails, False)
-        elif corr:
-            _mach_violation(ctx, st, scn, r, exp, mfr, corr, True)
+        if fails or corr:
+            small = _mach_shrink(scn, bool(fails))
+            r2, exp2, _, mfr2, fails2, corr2 = _mach_single(small)
+            if fails:
+                _mach_violation(ctx, st, small, r2, exp2, mfr2, fails2 or fails, False)
+            else:
+                _mach_violation(ctx, st, small, r2, exp2, mfr2, corr2 or corr, True)
         else:
             st.validated += 1
         if len(ctx.violations) >= 3:
@@ -373,7 +450,8 @@ def _mach_violation(ctx, st, scn, r, exp, mfr, why, no_input):
              "# source of the machine (REC(id, …) records what callback `id` received):"]
     body += r["src"].split("\n")
     body += ["# driven with: sm = M(MODEL, listeners=LISTENERS)"]
-    body += [f"#   sm.send({s['event']!r}, *{s['args']}, **{dict(map(tuple, s['kw']))})" for s in scn["sends"]]
+    body += [(f"#   sm.{s['event']}(*{s['args']}, **{dict(map(tuple, s['kw']))})" if s.get("style") == "method" else
+              f"#   sm.send({s['event']!r}, *{s['args']}, **{dict(map(tuple, s['kw']))})") for s in scn["sends"]]
     if scn["fwd"]:
         body.append(f"#   callback {scn['fwd']['cb']} calls sm.send('nxt', *{scn['fwd']['args']}, **kwargs, **{dict(map(tuple, scn['fwd']['kw']))})")
     body += ["# received (implementation): " + json.dumps(r["frames"]), "# errors: " + json.dumps(r["errors"]),
@@ -480,6 +558,14 @@ def run(ctx):
         raise RuntimeError("drv_bind does not build: " + (b.stdout + b.stderr)[-800:])
     st = Stats()
     quick = ctx.tier == "quick"
+    ctx.assumptions += [
+        "modelled externals: inspect.signature / Signature.from_callable (the harness hands the model the kinds, names and "
+        "defaults that inspect reports), inspect.BoundArguments.args/.kwargs and the CPython call protocol (compared with "
+        "CPython itself on every run: kinds `ba`, `call`), dict semantics (association lists; baKwargs_nodup)",
+        "WeakKeyDictionary: an adapter is cached per live function object; identity determines the signature (hypothesis of C07_local)",
+        "values are opaque tokens; default values are one token `dflt`; annotations and return annotations are not modelled",
+        "which callbacks run for an event and in which phase is taken from the scenario (C01/C02's subject), C07 checks what each one receives",
+    ]
     ctx.coverage["rule"] = (
         "an evaluation is one (signature, call) pair bound by the real code (direct), one CPython call/BoundArguments "
         "query (extern), or one machine scenario (2-8 callbacks x 2-5 events); non-trivial = the call has surplus "
@@ -537,6 +623,8 @@ def run(ctx):
     if batch and not direct_batch(ctx, st, batch, "exh"):
         return done()
     st.t["direct_exhaustive"] = round(time.time() - t0, 2)
+    ctx.coverage["anchored_line_coverage"] = line_coverage(
+        [(sig, a, k) for sig in G.signatures_upto(3) for a, k in G.call_shapes(sig, 3, 2)])
 
     # 3. direct, random larger signatures with names from user ∪ reserved pools; both entry points
     t0 = time.time()
